@@ -13,9 +13,11 @@ TRUSTED_BASE = ["sys.setprofile recording of the real Python stack at get_stack_
 ENTRIES = ["call", "gather", "unpack", "reg_add", "reg_source", "run_output"]
 
 
-def gen_module(entry, depth, ipy_at=None):
+def gen_module(entry, depth, ipy_at=None, recursive=False):
     """Source of a module whose h0 performs the entry-point call and h1..hd are enclosing helpers.
-    Returns (src, user_frames) where user_frames[i] = (name, line) innermost first."""
+    Returns (src, user_frames) where user_frames[i] = (name, line) innermost first.
+    recursive: ONE helper that calls itself `depth` times before it performs the entry-point call, so the enclosing frames all
+    have the same (function, file, line)."""
     lines, frames = [], []
     body = {
         "call": "plan.call(fn, 1)",
@@ -25,6 +27,10 @@ def gen_module(entry, depth, ipy_at=None):
         "reg_source": "reg.source(plan, store)",
         "run_output": "uberjob.run(plan, output=[node, {'k': node}], dry_run=True, progress=None)",
     }[entry]
+    if recursive:
+        lines += ["import uberjob", "def h%d(plan, reg, node, store, fn, n=%d):" % (depth, depth), "    if n > 0:",
+                  "        return h%d(plan, reg, node, store, fn, n - 1)" % depth, "    return %s" % body]
+        return "\n".join(lines) + "\n", [("h%d" % depth, 5)] + [("h%d" % depth, 4)] * depth
     lines.append("import uberjob")
     lines.append("def h0(plan, reg, node, store, fn):")
     lines.append("    x = 1")
@@ -143,8 +149,8 @@ def run(ctx):
     for entry_idx, entry in enumerate(ENTRIES):
         for depth in depths:
             # plan-building code compiled from a string (exec, doctest, notebook cells) has a "<...>" file name
-            for ipy in ([None] if ctx.quick and depth not in (2, 5) else [None, "angle", "ujname"]):
-                src, uframes = gen_module(entry, depth)
+            for ipy in ([None] if ctx.quick and depth not in (2, 5) else [None, "angle", "ujname"]) + (["recursive"] if depth >= 1 else []):
+                src, uframes = gen_module(entry, depth, recursive=(ipy == "recursive"))
                 path = "<generated %s_%d>" % (entry, depth) if ipy == "angle" else "/ujgen/%s_%d.py" % (entry, depth)
                 # a user module may be called anything - also something that merely starts with the library's name
                 ns = {"__name__": "uberjob_pipelines"} if ipy == "ujname" else {}
@@ -184,7 +190,7 @@ def run(ctx):
                 expected = [n_internal, 1, 1 if trunc else 0, len(got)] + [x for fr in got for x in intern.frame(fr)]
                 stack_ids = [intern.frame(fr) for fr in real]
                 model_cases.append(("%s/%d" % (entry, depth), entry_idx, stack_ids, expected, "capture", None))
-                ctx.count("file_name_kind", {None: "file", "angle": "<...>", "ujname": "module named uberjob_pipelines"}[ipy])
+                ctx.count("file_name_kind", {None: "file", "angle": "<...>", "ujname": "module named uberjob_pipelines", "recursive": "file, recursive helper"}[ipy])
                 ctx.case((entry, depth, "capture", ipy), sample={"entry": entry, "depth": depth, "captured": got, "truncated": trunc} if depth == 5 else None)
                 ctx.count("entry", entry)
                 ctx.count("depth", depth)
